@@ -295,6 +295,18 @@ func main() {
 		}
 	}
 	r.Explore("lines", fmt.Sprintf("3 distance functions x every vertex list of 0..%d alphabet points", maxN)+" x N in -1..12 x interval set", mc.Opts{MaxDev: -1, Split: 3}, part)
+	// lines that are tiny compared with their distance from the origin (a few 2^-24 long at coordinates around 2^20:
+	// exactly representable, far below any relative tolerance on the coordinates, yet of positive length)
+	r.Explore("tiny-far", "every vertex list of 2..4 alphabet points mapped to (2^20, 2^20) + p x 2^-24, planar metrics, N in -1..12 and the interval set: the same oracle as `lines`", mc.Opts{MaxDev: -1, Split: 2}, func(c *mc.Ctx) {
+		dfi := c.Choose(2) // the two planar metrics
+		n := 2 + c.Choose(3)
+		ls := make(orb.LineString, n)
+		for i := range ls {
+			p := alphabet[c.Choose(len(alphabet))]
+			ls[i] = orb.Point{1048576 + p[0]*math.Ldexp(1, -24), 1048576 + p[1]*math.Ldexp(1, -24)}
+		}
+		runLine(c, dfi, ls, small)
+	})
 	// lines whose length is not an integer, with intervals that "divide it exactly" in decimal only: the float
 	// quotient then sits a few ulps below an integer (0.3/0.1 = 2.9999999999999996) and must be floored, not rounded
 	fracL := []float64{0.3, 0.6, 0.7, 0.9, 1.2, 2.1}
